@@ -170,6 +170,126 @@ def CUnc (cap : Nat) (inp : ByteArray) (off : Nat) (B : RState × Status) (r : R
     (KB B → ∃ rb seq' kind, GTr B rb ∧ readChunk false rb = uncOut rb seq' kind h0 body usize ∧
       Link inp r { rb with seq := seq' })
 
+theorem bstep_grow (d d' : DecSt) (o : RawOp) (hl : OpLenOk o) (h : bstep d o = .cont d') :
+    d.h.out.size + 1 ≤ d'.h.out.size ∧ d'.rd = d.rd := by
+  have hc : ∀ dist len, 1 ≤ len → d.copy dist len = .cont d' → d.h.out.size + 1 ≤ d'.h.out.size ∧ d'.rd = d.rd := by
+    intro dist len h1 hc
+    unfold DecSt.copy at hc
+    split_ifs at hc
+    cases hc
+    have := congrArg List.length (copyMatch_toList dist len d.h).1
+    rw [copyMatchList_length, length_toList, length_toList] at this
+    exact ⟨by simp only; omega, rfl⟩
+  cases o with
+  | lit b =>
+    cases h
+    exact ⟨by simp only [Hist.push, ByteArray.size_push]; omega, rfl⟩
+  | mtch len dd => exact hc _ _ (by have := hl.1; omega) h
+  | rep g len => exact hc _ _ (by have := hl.1; omega) h
+  | shortRep => exact hc _ _ (by omega) h
+
+theorem bstep_fail (d d' : DecSt) (o : RawOp) (st : Status) (h : bstep d o = .fail d' st) :
+    st = .err "distance out of range" ∧ d' = d := by
+  have hc : ∀ dist len, d.copy dist len = .fail d' st → st = .err "distance out of range" ∧ d' = d := by
+    intro dist len hc
+    unfold DecSt.copy at hc
+    split_ifs at hc
+    cases hc
+    exact ⟨rfl, rfl⟩
+  cases o with
+  | lit b => cases h
+  | mtch len dd => exact hc _ _ h
+  | rep g len => exact hc _ _ h
+  | shortRep => exact hc _ _ h
+
+/-- what one batch step can do -/
+theorem decStep_cases (p : Props) (d : DecSt) :
+    (∃ d', decStep p d = .fail d' .unexpectedEOF ∧ d'.h = d.h ∧ d'.rd.inp.length ≤ d.rd.inp.length) ∨
+    (∃ d', decStep p d = .fail d' (.err "distance out of range") ∧ d'.h = d.h ∧ d'.rd.inp.length ≤ d.rd.inp.length) ∨
+    (∃ d', decStep p d = .marker d' ∧ d'.h = d.h ∧ d'.rd.inp.length ≤ d.rd.inp.length) ∨
+    (∃ d', decStep p d = .cont d' ∧ d.h.out.size + 1 ≤ d'.h.out.size ∧ d'.rd.inp.length ≤ d.rd.inp.length) := by
+  cases hres : decTree pm (opDec (mkCtx p d.s d.h)) d.tbl d.rd with
+  | none =>
+    obtain ⟨s, tbl, rd, hh, ops⟩ := d
+    simp only at hres
+    left
+    refine ⟨{ s := s, tbl := #[], rd := { range := 0, code := 0, inp := [] }, h := hh, ops := ops },
+      by simp only [decStep, hres], rfl, ?_⟩
+    simp
+  | some x =>
+    obtain ⟨o, tbl', rd'⟩ := x
+    have hlen := opDec_len _ _ _ _ _ _ hres
+    have hrd := decTree_inp_le _ _ _ _ _ _ hres
+    have hd := decStep_some d o tbl' rd' hres
+    by_cases hm : isMarker o = true
+    · rw [if_pos hm] at hd
+      exact Or.inr (Or.inr (Or.inl ⟨_, hd, rfl, hrd⟩))
+    · rw [if_neg hm] at hd
+      cases hb : bstep (dAfter d o tbl' rd') o with
+      | cont d' =>
+        obtain ⟨g1, g2⟩ := bstep_grow _ _ _ hlen hb
+        rw [hb] at hd
+        exact Or.inr (Or.inr (Or.inr ⟨d', hd, g1, by rw [g2]; exact hrd⟩))
+      | marker d' =>
+        exfalso
+        cases o <;> simp [bstep, DecSt.copy] at hb <;> split_ifs at hb
+      | fail d' st =>
+        obtain ⟨g1, g2⟩ := bstep_fail _ _ _ _ hb
+        rw [hb, g1, g2] at hd
+        exact Or.inr (Or.inl ⟨_, hd, rfl, hrd⟩)
+
+/-- the statuses with which the batch reader rejects a chunk header after it has been read completely -/
+def HdrSt (st : Status) : Prop := st = .err "unexpected chunk type" ∨ st = .err "invalid properties code"
+
+theorem finish_notHdr (p : Props) (d : DecSt) : ¬ HdrSt (decSegment.finish p false d).status := by
+  unfold decSegment.finish HdrSt
+  split_ifs with hc
+  · simp
+  · simp at *
+  · rcases decStep_cases p d with ⟨d', e, _, _⟩ | ⟨d', e, _, _⟩ | ⟨d', e, _, _⟩ | ⟨d', e, _, _⟩ <;> rw [e] <;> simp
+
+theorem decSegment_notHdr (p : Props) (size : Option Nat) (start : Nat) : ∀ (fb : Nat) (d : DecSt),
+    ¬ HdrSt (decSegment p size start false fb d).status := by
+  intro fb
+  induction fb with
+  | zero => intro d; simp [decSegment, HdrSt]
+  | succ fb ih =>
+    intro d
+    rw [decSegment]
+    by_cases h0 : size = some (d.h.out.size - start)
+    · rw [if_pos h0]; exact finish_notHdr p d
+    rw [if_neg h0]
+    rcases decStep_cases p d with ⟨d', e, _, _⟩ | ⟨d', e, _, _⟩ | ⟨d', e, _, _⟩ | ⟨d', e, _, _⟩
+    · rw [e]; simp [HdrSt]
+    · rw [e]; simp [HdrSt]
+    · rw [e]
+      simp only [Bool.false_eq_true, if_false]
+      split_ifs
+      · simp [HdrSt]
+      · cases size with
+        | none => simp [HdrSt]
+        | some sz => simp only; split_ifs <;> simp [HdrSt]
+    · rw [e]
+      cases size with
+      | none => exact ih d'
+      | some sz =>
+        simp only
+        split_ifs
+        · simp [HdrSt]
+        · exact finish_notHdr p d'
+        · exact ih d'
+
+theorem gi_notHdr {p : Props} {size : Option Nat} {cap startB off : Nat} {R : SegRes} {l : LSt} {D : ByteArray}
+    (hg : GI p size cap startB off R l D) (hK : K R) : ¬ HdrSt R.status := by
+  obtain ⟨d, _, _, g3, g4⟩ := hg
+  cases he : l.eos with
+  | false =>
+    obtain ⟨fb, hfb⟩ := (g3 he).1 hK
+    rw [← hfb]; exact decSegment_notHdr _ _ _ _ _
+  | true =>
+    rw [(g4 he hK).1]
+    rintro (h | h) <;> cases h
+
 /-- the delivered bytes are a prefix of the batch output -/
 def FinPre (off : Nat) (B : RState × Status) (D : ByteArray) : Prop :=
   KB B → D.data.toList = (B.1.h.out.data.toList.drop off).take D.size
@@ -178,7 +298,8 @@ def FinPre (off : Nat) (B : RState × Status) (D : ByteArray) : Prop :=
 def FinSt (off : Nat) (B : RState × Status) (D : ByteArray) (r' : R2) : RStat → Prop
   | .ok => True
   | .eof => KB B → B.2 = .eof ∧ D.data.toList = B.1.h.out.data.toList.drop off ∧ B.1.pos = r'.srcPos
-  | .err e => NotBad (.err e) ∧ (KB B → B.2.cls = (statusOf e).cls)
+  | .err e => NotBad (.err e) ∧ (KB B → B.2.cls = (statusOf e).cls) ∧
+      (KB B → HdrSt B.2 → D.data.toList = B.1.h.out.data.toList.drop off)
 
 /-! ### `readChunk` in a form that follows `startChunk` -/
 
@@ -373,10 +494,15 @@ theorem fin_done {r r' : R2} {D : ByteArray} {h : Hist} {e : Err}
     (hrc : ∀ rb, Link inp r rb → rb.pos = r.pos → rb.h = h →
       ∃ rb' st, readChunk false rb = .done rb' st ∧ rb'.h.out = h.out ∧ st.cls = (statusOf e).cls) :
     FinSt off B D r' (.err e) ∧ FinPre off B D := by
-  refine ⟨⟨hnb, fun hK => ?_⟩, fun hK => ?_⟩
+  refine ⟨⟨hnb, fun hK => ?_, fun hK _ => ?_⟩, fun hK => ?_⟩
   · obtain ⟨rb, hg, hl, hp, hh⟩ := hKB hK
     obtain ⟨rb', st, e1, e2, e3⟩ := hrc rb hl hp hh
     rw [gtr_done hg hK e1]; exact e3
+  · obtain ⟨rb, hg, hl, hp, hh⟩ := hKB hK
+    obtain ⟨rb', st, e1, e2, e3⟩ := hrc rb hl hp hh
+    rw [gtr_done hg hK e1]
+    simp only [e2]
+    exact hD
   · obtain ⟨rb, hg, hl, hp, hh⟩ := hKB hK
     obtain ⟨rb', st, e1, e2, e3⟩ := hrc rb hl hp hh
     rw [gtr_done hg hK e1]
@@ -756,7 +882,7 @@ theorem unc_short {r : R2} {D : ByteArray} {h0 : Hist} {body usize : Nat}
     refine ⟨rfl, ?_⟩
     simp only [afterUnc, hi, hmin]
     rw [show body + (r.pos - body) = r.pos by omega]
-  refine ⟨⟨nb_ueof, fun hK => by rw [(key hK).1]; rfl⟩, fun hK => ?_⟩
+  refine ⟨⟨nb_ueof, fun hK => by rw [(key hK).1]; rfl, fun hK hh => by rw [(key hK).1] at hh; rcases hh with h | h <;> cases h⟩, fun hK => ?_⟩
   rw [(key hK).2]; exact hD
 
 theorem ufill_spec {r : R2} {D : ByteArray} (hc : CUnc cap inp off B r D) :
@@ -1055,7 +1181,7 @@ theorem lzRead_spec (hcap : 274 ≤ cap) {r : R2} {D0 : ByteArray} (hc : CLz cap
   · intro e hst
     simp only at hst
     subst hst
-    refine ⟨⟨goodErr_notBad q4, fun hK => ?_⟩, fun hK => ?_⟩
+    refine ⟨⟨goodErr_notBad q4, fun hK => ?_, fun hK hh => ?_⟩, fun hK => ?_⟩
     · obtain ⟨rb, seq', kind, csize, hp, body, n, k1, k2, k3, k4, k5, k6, k7, k8⟩ := hKB hK
       have hKR := kR_of_KB hK k1 k3
       have hcls := goodErr_cls hKR q4
@@ -1066,6 +1192,17 @@ theorem lzRead_spec (hcap : 274 ≤ cap) {r : R2} {D0 : ByteArray} (hc : CLz cap
       rw [lzOut_status hne] at k3
       rw [gtr_done k1 hK k3]
       exact hcls
+    · exfalso
+      obtain ⟨rb, seq', kind, csize, hp, body, n, k1, k2, k3, k4, k5, k6, k7, k8⟩ := hKB hK
+      have hKR := kR_of_KB hK k1 k3
+      have hcls := goodErr_cls hKR q4
+      have hne : R.status ≠ .eof := by
+        intro he
+        rw [he] at hcls
+        cases e <;> simp [Status.cls, statusOf] at hcls
+      rw [lzOut_status hne] at k3
+      rw [gtr_done k1 hK k3] at hh
+      exact gi_notHdr hg hKR hh
     · obtain ⟨rb, seq', kind, csize, hp, body, n, k1, k2, k3, k4, k5, k6, k7, k8⟩ := hKB hK
       have hKR := kR_of_KB hK k1 k3
       have hcls := goodErr_cls hKR q4
@@ -1452,7 +1589,7 @@ theorem seq_final {D out : ByteArray} {r' : R2} {st : RStat} {len : Nat} {rest :
   · intro e hl hK
     have : st = .err e := hl
     subst this
-    exact h1.2 hK
+    exact h1.2.1 hK
   · intro hl
     exact absurd hl h3
 
